@@ -484,6 +484,16 @@ class StepClock:
         m.set_events(self.TOOL_ID, 0)
         StepClock._owner = None
 
+    @classmethod
+    def acknowledge(cls) -> None:
+        """The harness has received StepBudgetExceeded: stop interrupting (library code called by the
+        harness itself would otherwise be interrupted too).  If the *tool* swallows the exception the harness
+        never gets here and the clock keeps firing on every event."""
+        c = cls._owner
+        if c is not None:
+            c.exceeded = True
+            c.budget = 1 << 62
+
     @contextlib.contextmanager
     def paused(self):
         m = sys.monitoring
